@@ -33,6 +33,10 @@ class Budget(Exception):
     pass
 
 
+class Prune(Exception):
+    """The harness's own precondition is infeasible under the current case split: the path is dropped (not inconclusive)."""
+
+
 QUERY_TIMEOUT_MS = 10000
 
 
@@ -47,6 +51,7 @@ class Ctl:
         self.branches = 0
         self.pre = []  # preconditions added by the harness (for reporting)
         self.deadline = None
+        self.aux = 0
         self.new_solver()
 
     def new_solver(self):
@@ -55,6 +60,7 @@ class Ctl:
 
     def reset_run(self):
         self.pos = 0
+        self.aux = 0
         self.new_solver()
 
     def assume(self, *conds):
@@ -229,8 +235,18 @@ def bterm(b):
 
 
 def floor_term(t):
+    """floor of a Real term as a fresh Int f with the defining constraint f <= t < f+1 asserted (equivalent to ToInt,
+    but leaves the solver a plain mixed integer/real linear problem; ToInt terms made z3 answer unknown)."""
     if is_term(t):
-        return t if t.sort() == z3.IntSort() else z3.ToInt(t)
+        if t.sort() == z3.IntSort():
+            return t
+        t = z3.simplify(t)
+        if z3.is_rational_value(t):
+            return z3.IntVal(t.numerator_as_long() // t.denominator_as_long())
+        CTL.aux += 1
+        f = z3.Int("fl!%d" % CTL.aux)
+        CTL.solver.add(z3.ToReal(f) <= t, t < z3.ToReal(f) + 1)
+        return f
     return _math.floor(t)
 
 
@@ -239,7 +255,7 @@ def round_half_even_term(t):
         return round(t)
     if t.sort() == z3.IntSort():
         return t
-    f = z3.ToInt(t)
+    f = floor_term(t)
     d = t - z3.ToReal(f)
     half = z3.RealVal("1/2")
     return z3.If(d < half, f, z3.If(d > half, f + 1, z3.If(f % 2 == 0, f, f + 1)))
@@ -250,7 +266,48 @@ def trunc_term(t):
         return _math.trunc(t)
     if t.sort() == z3.IntSort():
         return t
-    return z3.If(t >= 0, z3.ToInt(t), -z3.ToInt(-t))
+    f = floor_term(t)
+    return z3.If(z3.Or(t >= 0, z3.ToReal(f) == t), f, f + 1)
+
+
+def _content(n):
+    """gcd of all integer coefficients of a linear Int term (1 if unknown structure)"""
+    if z3.is_int_value(n):
+        return abs(n.as_long())
+    k = n.decl().kind()
+    if k == z3.Z3_OP_MUL and n.num_args() == 2 and z3.is_int_value(n.arg(0)):
+        return abs(n.arg(0).as_long())
+    if k == z3.Z3_OP_ADD:
+        g = 0
+        for a in n.children():
+            g = _math.gcd(g, _content(a))
+            if g == 1:
+                return 1
+        return g
+    return 1
+
+
+def _div_exact(n, g):
+    if z3.is_int_value(n):
+        return z3.IntVal(n.as_long() // g)
+    k = n.decl().kind()
+    if k == z3.Z3_OP_MUL:
+        c = n.arg(0).as_long() // g
+        return n.arg(1) if c == 1 else c * n.arg(1)
+    if k == z3.Z3_OP_ADD:
+        return z3.Sum([_div_exact(a, g) for a in n.children()])
+    raise Unsupported("div_exact")
+
+
+def nd_reduce(n, d):
+    """cancel the constant common factor of numerator term and denominator"""
+    if not is_term(n) or d == 1:
+        return n, d
+    n = z3.simplify(n, som=True)
+    g = _math.gcd(d, _content(n))
+    if g > 1:
+        return z3.simplify(_div_exact(n, g)), d // g
+    return n, d
 
 
 # --- integer-form helpers: value n/d, n z3 Int term (or python int), d concrete int > 0
@@ -315,10 +372,19 @@ def nd_of(x):
     return None
 
 
+def _lit(t):
+    """z3 numeral -> python exact number; other terms unchanged"""
+    if z3.is_int_value(t):
+        return t.as_long()
+    if z3.is_rational_value(t):
+        return _norm(RealFraction(t.numerator_as_long(), t.denominator_as_long()))
+    return t
+
+
 def term_of(x):
     """z3 arithmetic term (Int or Real) or python exact number for x."""
     if is_term(x):
-        return x
+        return _lit(x)
     if isinstance(x, bool):
         return int(x)
     if isinstance(x, int):
@@ -563,8 +629,7 @@ class _RatLike(_Num):
                 if not is_term(n):
                     nd = None
                 else:
-                    # cancel constant common factor of a "c * t" numerator cheaply
-                    nd = (z3.simplify(n), d)
+                    nd = nd_reduce(n, d)
         return self._result(v, nd, o)
 
     def _result(self, v, nd, other):
@@ -1131,6 +1196,8 @@ def explore(fn, max_paths=200000, budget_s=600.0, variables=None):
             inconclusive.append("budget: " + str(e))
             res.paths += 1
             break
+        except Prune:
+            ok, info, status = None, None, "pruned"
         except Unsupported as e:
             ok, info, status = None, None, "unsupported"
             inconclusive.append("unsupported: " + str(e))
@@ -1222,3 +1289,11 @@ def choose(name, n):
 
 def feasible():
     return CTL.check() == z3.sat
+
+
+def require_feasible():
+    r = CTL.check()
+    if r == z3.unsat:
+        raise Prune()
+    if r != z3.sat:
+        raise SolverUnknown("solver unknown on precondition")
